@@ -11,7 +11,7 @@ use std::ffi::OsString;
 
 pub static DEF: PropDef = PropDef {
     id: "C07",
-    rule: "random: trees (depth<=4, <=30 entries) whose names are arbitrary UTF-8 without '/' and NUL, up to 255 bytes - blanks-only, leading '-', newlines, quotes, backslashes, '{}', '$()', glob characters, combining and 4-byte characters, long names that push the output past 8 KiB / put a newline >1 KiB before the end of a path - under several spellings of the starting point; a quarter of the short-name cases stand in a directory with a hostile name of its own ('(2024) x', '!x', ',v', blanks, newline, quotes ...) and run the find binary from its parent, so that the starting point is that name given bare. Oracle: in-process -print0 / -print output == concatenation of reference-walk paths + terminator; then the built binaries: find ... -print0 (stdout captured) == the same bytes, and xargs -0 rec fed with them delivers exactly the path list, each once, unmodified, exit 0. Non-trivial = some name contains a blank, newline, quote, backslash, leading dash or non-ASCII character (and the pipeline sub-run was exercised for the binary tier). Distinct = distinct case JSON.",
+    rule: "random: trees (depth<=4, <=30 entries) whose names are arbitrary UTF-8 without '/' and NUL, up to 255 bytes - blanks-only, leading '-', newlines, quotes, backslashes, '{}', '$()', glob characters, combining and 4-byte characters, long names that push the output past 8 KiB / put a newline >1 KiB before the end of a path - under several spellings of the starting point; a quarter of the short-name cases stand in a directory with a hostile name of its own ('(2024) x', '!x', ',v', blanks, newline, quotes ...) and run the find binary from its parent, so that the starting point is that name given bare (that stream also through xargs -0 -I{}); one short-name case in eight starts from a symbolic link to the tree under -H (two thirds of them with -depth). Oracle: in-process -print0 / -print output == concatenation of reference-walk paths + terminator; then the built binaries: find ... -print0 (stdout captured) == the same bytes, and xargs -0 rec fed with them delivers exactly the path list, each once, unmodified, exit 0. Non-trivial = some name contains a blank, newline, quote, backslash, leading dash or non-ASCII character (and the pipeline sub-run was exercised for the binary tier). Distinct = distinct case JSON.",
     assumptions: &["names are valid UTF-8 (the statement's domain)", "the pipe is modelled by capturing find's stdout and feeding it to xargs' stdin (both real processes)"],
     run,
     replay,
